@@ -20,7 +20,9 @@ Inductive robs :=
 | OF (shape : list byte) (saved : list byte) (content : list byte)
 | OR (dirty : list byte) (maxStop : byte) (data : list byte).
 
-Record case := { tempfile : bool; limit : Z; hists : list (list rop * list robs) }.
+(* a case is a batch of histories on fresh files: each history is [pre] followed by one element of [hists]
+   (the common prefix and the implementation's observations on it are written once) *)
+Record case := { tempfile : bool; limit : Z; pre : list rop * list robs; hists : list (list rop * list robs) }.
 
 Definition bz (b : byte) : Z := Z.of_N (Byte.to_N b).
 Definition bn (l : list byte) : list N := map Byte.to_N l.
@@ -59,12 +61,19 @@ Definition dec_op (o : rop) : op :=
   | F => Flush
   | R off len => Read (bz off) (bz len)
   end.
-Definition dec_obs (o : robs) : obs :=
-  match o with
+(* the dirty-layer buffer of a Read is written without its trailing zeros: pad it to the read length *)
+Definition pad_to (len : Z) (d : list N) : list N := d ++ repeat 0%N (Z.to_nat len - length d).
+Definition dec_obs (o : rop) (ob : robs) : obs :=
+  match ob with
   | OW s sv => OWrite (shp s) (svd sv)
   | OT c a => OTrunc (prs (bzs c)) (bz a)
   | OF s sv c => OFlush (shp s) (svd sv) (bn c)
-  | OR d m x => ORead (bn d) (bz m) (bn x)
+  | OR d m x => ORead (pad_to (match o with R _ len => bz len | _ => 0 end) (bn d)) (bz m) (bn x)
+  end.
+Fixpoint dec_obs_list (os : list rop) (rs : list robs) : list obs :=
+  match os, rs with
+  | o :: os', ob :: rs' => dec_obs o ob :: dec_obs_list os' rs'
+  | _, _ => []
   end.
 
 (* ---- comparison of observables ---- *)
@@ -133,8 +142,10 @@ Definition is_saving (ob : obs) : bool := match ob with OFlush _ (_ :: _) _ => t
 Definition is_read_nonempty (ob : obs) : bool := match ob with ORead _ _ (_ :: _) => true | _ => false end.
 
 Definition check (c : case) : outcome :=
-  let hs := map (fun h => (map dec_op (fst h), map dec_obs (snd h))) (hists c) in
-  {| o_corr := forallb (fun h => all2 obs_eqb (model_run c (fst h)) (snd h)) hs;
+  let raw := map (fun h => (fst (pre c) ++ fst h, snd (pre c) ++ snd h)) (hists c) in
+  let hs := map (fun h => (map dec_op (fst h), dec_obs_list (fst h) (snd h))) raw in
+  {| o_corr := forallb (fun h => Nat.eqb (length (fst h)) (length (snd h))) raw &&
+               forallb (fun h => all2 obs_eqb (model_run c (fst h)) (snd h)) hs;
      o_prop := forallb (fun h => posix_ok [] [] (fst h) (snd h)) hs;
      (* a known finding explains the case only if EVERY failing history of the batch is inside a trigger set *)
      o_trig := (let ts := map (fun h => model_trigger c (fst h))
